@@ -857,8 +857,9 @@ class Variable:
             # This the name of a derived type, as found in USE import statements
             return DerivedTypeSymbol(**kwargs)
 
-        if 'dimensions' in kwargs and kwargs['dimensions'] is None:
+        if 'dimensions' in kwargs and not kwargs['dimensions']:
             # Convenience: This way we can construct Scalar variables with `dimensions=None`
+            # (an empty tuple means "no subscripts given", too)
             kwargs.pop('dimensions')
 
         if kwargs.get('dimensions') is not None or (_type and _type.shape):
